@@ -166,6 +166,26 @@ def shard(items, n):
     return [s for s in res if s]
 
 
+def run_tlapm(module, timeout=600):
+    """Checks the proofs of a module with the TLA+ proof system in a scratch copy; returns a summary for the evidence.
+    A proof that does not go through is a defect of the specification, not of the code: inconclusive."""
+    d = tempfile.mkdtemp(prefix="verif-tlapm-")
+    try:
+        shutil.copyfile(os.path.join(SPEC, module), os.path.join(d, module))
+        try:
+            r = subprocess.run(["tlapm", "--threads", str(min(NCPU, 8)), module], cwd=d, capture_output=True, text=True, timeout=timeout)
+        except (subprocess.TimeoutExpired, FileNotFoundError) as e:
+            raise Inconclusive("tlapm did not finish on %s: %s" % (module, e))
+        out = r.stdout + r.stderr
+        m = re.search(r"All (\d+) obligations? proved", out)
+        if r.returncode != 0 or not m:
+            raise Inconclusive("tlapm could not prove %s:\n%s" % (module, out[-1500:]))
+        log("tlapm %s: all %s obligations proved" % (module, m.group(1)))
+        return {"module": module, "obligations_proved": int(m.group(1)), "prover": "tlapm (TLAPS)", "theorem": "Spec => []Inv"}
+    finally:
+        shutil.rmtree(d, ignore_errors=True)
+
+
 def run_harness(args, timeout=900, env=None):
     e = dict(os.environ)
     e.update(env or {})
